@@ -18,6 +18,7 @@ type ReplayInput struct {
 	OptSet  OptSet            `json:"optset"`
 	Cmdline string            `json:"cmdline"`
 	Runs    int               `json:"runs"`
+	Stale   bool              `json:"into_used_directory"` // the difference shows when the output directory holds a previous run's files
 }
 
 func progOf(in ReplayInput) Prog {
@@ -75,7 +76,7 @@ type dynStats struct {
 
 func runDynamic(t Tools, dir string, seed uint64, tier string, out *vl.Out) dynStats {
 	r := vl.NewRng(seed ^ 0xC07D)
-	// quick: 7 x 4 x (3+1) = 112 executions + 138 of the regression corpus = 250
+	// quick: 7 x 4 x (3+1) = 112 executions + 138 of the regression corpus (3x32 + 24 + 3x6) = 250
 	nProg, nOpt, nRuns, budget, limit := 7, 4, 3, 80, 25*time.Second
 	if tier == "thorough" {
 		nProg, nOpt, nRuns, budget, limit = 40, 10, 20, 250, 90*time.Second
@@ -132,10 +133,16 @@ func runDynamic(t Tools, dir string, seed uint64, tier string, out *vl.Out) dynS
 		return false
 	}
 	seenCombo := map[string]bool{}
+	staleReported := false
+	shrinks, shrinkStart := 0, time.Duration(0)
+	maxShrinks, shrinkTotal := 4, 75*time.Second
+	if tier == "thorough" {
+		maxShrinks, shrinkTotal = 8, 240*time.Second
+	}
 	// regression corpus first: the minimal witnesses of the three defects this check found (iteration
 	// order of a Go map reaching output bytes); each must give ONE hash over its runs. A Go 1.23 map of
 	// <= 8 entries is iterated from a random slot of its single bucket: two entries swap in 1 run of 8
-	// only, so the 2-entry witnesses get 40 runs (miss < 0.6%) and the 8-entry ones 16.
+	// only, so the 2-entry witnesses get 32 runs (miss 1.4%, backed by the 8-entry variants).
 	for ri, w := range regressionCorpus(tier) {
 		d, ok := differs(t, w.p, w.o, filepath.Join(dir, "regress", fmt.Sprint(ri)), w.runs)
 		st.Executions += w.runs
@@ -200,10 +207,37 @@ func runDynamic(t Tools, dir string, seed uint64, tier string, out *vl.Out) dynS
 				}
 			}
 			var first *Diff
-			for _, x := range c.res[1:] {
+			for _, x := range c.res[1:nRuns] {
 				if d := compare(ref, x); d != nil {
 					first = d
 					break
+				}
+			}
+			if first == nil {
+				// only the run into a directory holding (altered) files of a previous run differs: one
+				// finding for the whole run, reproduced on a two-line program, nothing to shrink
+				if d := compare(ref, c.res[nRuns]); d != nil {
+					st.CombosDiffering++
+					st.DifferingByKey[c.o.Backend+":stale-output"]++
+					if !staleReported {
+						staleReported = true
+						tiny := Prog{Files: []IDLFile{{Name: "main0.thrift", Lines: []string{"namespace go p0.main", "struct A { 1: string a }"}}}}
+						tp, to := tiny, OptSet{Name: "default", Backend: c.o.Backend}
+						td := differsStale(t, tp, to, filepath.Join(dir, "stale"))
+						st.Executions += 2
+						if td == nil {
+							tp, to, td = c.p, c.o, d
+						}
+						f := mkFail(tp, to, td, 2)
+						f.Key = "nondeterministic:into-used-directory:" + to.Backend
+						f.What = "output written into a directory that holds files of a previous run differs from output written into a fresh directory"
+						in := f.Input.(ReplayInput)
+						in.Stale = true
+						f.Input = in
+						out.Fail(f)
+					}
+					os.RemoveAll(c.dir)
+					continue
 				}
 			}
 			if len(st.Samples) < 4 && ci%5 == 0 {
@@ -217,7 +251,15 @@ func runDynamic(t Tools, dir string, seed uint64, tier string, out *vl.Out) dynS
 				st.DifferingByKey[sig]++
 				if !covered(c.o, first) {
 					t0 := time.Now()
-					p2, o2, d2, tests := shrink(t, c.p, c.o, first, filepath.Join(dir, "shrink", fmt.Sprint(ci)), 12, budget, limit)
+					lim := limit
+					if shrinks >= maxShrinks || shrinkStart >= shrinkTotal {
+						lim = 0 // only the option list (the key depends on it); the program stays as generated
+					} else if shrinkTotal-shrinkStart < lim {
+						lim = shrinkTotal - shrinkStart
+					}
+					shrinks++
+					p2, o2, d2, tests := shrink(t, c.p, c.o, first, filepath.Join(dir, "shrink", fmt.Sprint(ci)), 12, budget, lim)
+					shrinkStart += time.Since(t0)
 					fmt.Fprintf(os.Stderr, "c07: shrunk %s (%s %s %s) to %d lines, %s in %d tests, %.1fs\n", c.o.Name, first.Kind, first.Pattern, first.Attr,
 						p2.NLines(), o2.gArg(), tests, time.Since(t0).Seconds())
 					st.ShrinkTests += tests
@@ -237,12 +279,13 @@ func runDynamic(t Tools, dir string, seed uint64, tier string, out *vl.Out) dynS
 func cmdRun(dir string, seed uint64, tier string, t Tools) {
 	out := vl.NewOut(dir)
 	r := vl.NewRng(seed)
-	nR, nD, nN := 400, 120, 250
+	nR, nD, nN, nV := 400, 120, 250, 150
 	if tier == "thorough" {
-		nR, nD, nN = 4000, 1000, 2500
+		nR, nD, nN, nV = 4000, 1000, 2500, 1500
 	}
 	corrReplacer(r, out, nR)
 	corrDescriptor(r, out, nD)
+	corrConstMap(r, out, nV)
 	corrNamespace(r, out, nN)
 	var st dynStats
 	if t.Thriftgo != "" {
@@ -277,8 +320,14 @@ func cmdReplay(file, dir string, t Tools) {
 		if runs < 40 {
 			runs = 40
 		}
-		d, ok := differs(t, p, in.OptSet, filepath.Join(dir, "replay"), runs)
-		if ok && d != nil {
+		if in.Stale {
+			if d := differsStale(t, p, in.OptSet, filepath.Join(dir, "replay")); d != nil {
+				f := mkFail(p, in.OptSet, d, 2)
+				f.Key, in.Runs = "nondeterministic:into-used-directory:"+in.OptSet.Backend, 2
+				f.Input = in
+				fails = append(fails, f)
+			}
+		} else if d, ok := differs(t, p, in.OptSet, filepath.Join(dir, "replay"), runs); ok && d != nil {
 			fails = append(fails, mkFail(p, in.OptSet, d, runs))
 		}
 	}
@@ -362,12 +411,36 @@ func regressionCorpus(tier string) []witness {
 		fmt.Sprintf("struct S { %s } (%s)", strings.Join(names, ", "), strings.Join(anns, ", ")),
 		fmt.Sprintf("struct T { 1: map<string,string> m = {%s} (%s) }", strings.Join(ents, ", "), strings.Join(anns, ", ")),
 		"struct U1 {}", "struct U2 {}", "enum E { A = 1 }", "exception X { 1: string m }", "service Svc { void f() throws (1: X x) }")
+	// keys of equal content with different values, placed so that every rotation of the 8 slots of the
+	// map's bucket exchanges one pair (i, i+4): 7 runs of 8 show a key-only order
+	var dupEnts []string
+	for i := 0; i < 8; i++ {
+		dupEnts = append(dupEnts, fmt.Sprintf(`{"name": "k%d", "id": %d}: "v%d"`, i%4, i%4, i))
+	}
+	dupKeys := one("namespace go p0.main", "struct K { 1: string name, 2: i32 id }",
+		fmt.Sprintf("const map<K,string> M = {%s}", strings.Join(dupEnts, ", ")),
+		`struct S { 1: map<K,string> m = {{"name": "k", "id": 1}: "first", {"name": "k", "id": 1}: "second"} }`)
 	return []witness{
-		{"descriptor: two namespaces (minimal)", one("namespace go p0.main", "namespace rs p0.main"), refl, 40},
-		{"fastgo imports: fmt and unsafe (minimal)", one("struct S { 1: bool a }"), nofmt, 40},
-		{"plugin request: two names (minimal)", one("struct A {}", "struct B {}"), plug, 40},
+		{"descriptor: two namespaces (minimal)", one("namespace go p0.main", "namespace rs p0.main"), refl, 32},
+		{"fastgo imports: fmt and unsafe (minimal)", one("struct S { 1: bool a }"), nofmt, 32},
+		{"plugin request: two names (minimal)", one("struct A {}", "struct B {}"), plug, 32},
+		{"descriptor: map constant and default whose struct keys have equal content and different values", dupKeys, refl, 24},
 		{"descriptor: 8 includes, 8 namespaces, 8 annotations, 8 map entries", wide, refl, wideRuns},
 		{"fastgo imports: 8 included packages", wide, nofmt, wideRuns},
 		{"plugin request: 8 names, 8 includes", wide, plug, wideRuns},
 	}
+}
+
+// differsStale: one run into a fresh directory, one into a directory holding that output with a
+// line appended to every file; the two trees must be equal.
+func differsStale(t Tools, p Prog, o OptSet, dir string) *Diff {
+	defer os.RemoveAll(dir)
+	idl, err := writeProg(filepath.Join(dir, "idl"), p)
+	if err != nil {
+		panic(err)
+	}
+	a := runOne(t, o, idl, filepath.Join(dir, "r0"), "out", gmp[1])
+	copyTree(filepath.Join(dir, "r0", "out"), filepath.Join(dir, "again", "out"))
+	b := runOne(t, o, idl, filepath.Join(dir, "again"), "out", gmp[2])
+	return compare(a, b)
 }
